@@ -32,8 +32,12 @@ static PyObject * specpart(PyObject *self, PyObject *args)
   int ihmax;
   int nk, nth, dims[2], i, j;
 
-  if (!PyArg_ParseTuple(args, "O!i", &PyArray_Type, &specin, &ihmax))
+  PyObject *specobj;
+
+  if (!PyArg_ParseTuple(args, "O!i", &PyArray_Type, &specobj, &ihmax))
     return NULL;
+  /* The routine reads the buffer as C-ordered float32 (nk, nth) */
+  specin = (PyArrayObject *) PyArray_FROM_OTF(specobj, NPY_FLOAT, NPY_ARRAY_IN_ARRAY | NPY_ARRAY_FORCECAST);
   if (NULL == specin)
     return NULL;
 
@@ -56,6 +60,7 @@ static PyObject * specpart(PyObject *self, PyObject *args)
   /* Free memory, close file and return */
   // Don't think that is necessary
   //PyArray_free(spec);
+  Py_DECREF(specin);
   
   return PyArray_Return(ipartout);
 }
